@@ -17,6 +17,7 @@ import re
 
 from ..ir import (
     Alias,
+    Annotation,
     AnnotationType,
     AnnotationTypeParam,
     Api,
@@ -1189,6 +1190,10 @@ class IRGenerator:
         elif isinstance(obj, ApiRoutesByVersion):
             raise InvalidSpec('A route cannot be referenced here.',
                               *loc)
+        elif isinstance(obj, (Annotation, AnnotationType)):
+            raise InvalidSpec(
+                '%s is an annotation and cannot be referenced as a type.' %
+                quote(type_ref.name), *loc)
         elif type_ref.args[0] or type_ref.args[1]:
             # An instance of a type cannot have any additional
             # attributes specified.
